@@ -87,7 +87,7 @@ theorem contents_mset (fs : Fs) (i j : Nat) (b : List Nat) (ents : Ents) (cwd : 
 
 /-- What `walk` hands to `walkWith` for links. -/
 def cont (m : Ents) (fl : Bool) : Nat → Loc → List Name → Res
-  | 0 => fun _ _ => .error
+  | 0 => fun _ _ => .error .loop
   | f + 1 => walk m fl f
 
 theorem walk_eq (m : Ents) (fl : Bool) (f : Nat) : walk m fl f = walkWith (cont m fl f) m fl := by
@@ -218,7 +218,7 @@ def ResOk (m : Ents) : Res → Prop
   | .found loc e => (e = .dir ∧ CanonDir m loc) ∨
       (∃ D n, loc = D ++ [n] ∧ CanonDir m D ∧ entryAt m loc = some e ∧ e ≠ .dir)
   | .missing D n => CanonDir m D ∧ entryAt m (D ++ [n]) = none
-  | .error => True
+  | .error _ => True
 
 theorem walkWith_canon (k : Loc → List Name → Res) (m : Ents) (fl : Bool)
     (hk : ∀ c cs, CanonDir m c → ResOk m (k c cs)) :
@@ -298,5 +298,95 @@ theorem walk_relabel {m1 m2 : Ents} (K : Loc) (i j : Nat)
   | f + 1, cur, comps => by
     simp only [walk]
     exact walkWith_relabel K i j hne h1 h2 _ _ (fun c cs => walk_relabel K i j hne h1 h2 fl f c cs) fl comps cur
+
+/-- Frame: binding names that were not bound changes no resolution that found something. -/
+theorem walkWith_extend {m1 m2 : Ents} (h : ∀ l, entryAt m1 l ≠ none → entryAt m2 l = entryAt m1 l)
+    (k1 k2 : Loc → List Name → Res) (hk : ∀ c cs loc e, k1 c cs = .found loc e → k2 c cs = .found loc e)
+    (fl : Bool) :
+    ∀ (comps : List Name) (cur loc : Loc) (e : Entry),
+      walkWith k1 m1 fl cur comps = .found loc e → walkWith k2 m2 fl cur comps = .found loc e
+  | [], cur, loc, e => by simp [walkWith]
+  | n :: rest, cur, loc, e => by
+    rcases h1 : entryAt m1 (cur ++ [n]) with _ | e1
+    · simp only [walkWith, h1]; split <;> simp
+    · have h2 : entryAt m2 (cur ++ [n]) = some e1 := by rw [h _ (by rw [h1]; simp), h1]
+      cases e1 with
+      | dir => simp only [walkWith, h1, h2]; exact walkWith_extend h k1 k2 hk fl rest _ loc e
+      | link t =>
+        simp only [walkWith, h1, h2]
+        split
+        · exact id
+        · exact hk _ _ _ _
+      | file i => simp only [walkWith, h1, h2]; exact id
+      | dev => simp only [walkWith, h1, h2]; exact id
+
+theorem walk_extend {m1 m2 : Ents} (h : ∀ l, entryAt m1 l ≠ none → entryAt m2 l = entryAt m1 l) (fl : Bool) :
+    ∀ (f : Nat) (cur : Loc) (comps : List Name) (loc : Loc) (e : Entry),
+      walk m1 fl f cur comps = .found loc e → walk m2 fl f cur comps = .found loc e
+  | 0, cur, comps, loc, e => by
+    simp only [walk]; exact walkWith_extend h _ _ (by simp) fl comps cur loc e
+  | f + 1, cur, comps, loc, e => by
+    simp only [walk]
+    exact walkWith_extend h _ _ (fun c cs loc e => walk_extend h fl f c cs loc e) fl comps cur loc e
+
+/-- How the resolution of `init ++ [x]` follows from the resolution of the directory part `init`
+(last component followed): -/
+def SnocSpec (m : Ents) (fl : Bool) (r : Res) (w : Name → Res) : Prop :=
+  match r with
+  | .found D .dir => ∃ k, ∀ x, w x = lastStep k m fl D x
+  | .found _ (.link _) => True
+  | .found _ _ => ∀ x, w x = .error .notdir
+  | .missing _ _ => ∀ x, w x = .error .noent
+  | .error e => ∀ x, w x = .error e
+
+theorem walkWith_snoc (m : Ents) (fl : Bool) (k1 k2 : Loc → List Name → Res)
+    (hk : ∀ c cs, SnocSpec m fl (k1 c cs) (fun x => k2 c (cs ++ [x]))) :
+    ∀ (init : List Name) (cur : Loc),
+      SnocSpec m fl (walkWith k1 m true cur init) (fun x => walkWith k2 m fl cur (init ++ [x]))
+  | [], cur => by
+    simp only [walkWith, SnocSpec, List.nil_append]
+    exact ⟨k2, fun x => walkWith_last k2 m fl cur x⟩
+  | a :: rest, cur => by
+    rcases h : entryAt m (cur ++ [a]) with _ | e
+    · simp only [walkWith, h, List.cons_append]
+      split <;> simp [SnocSpec]
+    · cases e with
+      | dir =>
+        simp only [walkWith, h, List.cons_append]
+        exact walkWith_snoc m fl k1 k2 hk rest _
+      | link t =>
+        have := hk (if t.abs then [] else cur) (t.comps ++ rest)
+        simpa [walkWith, h, List.append_assoc] using this
+      | file i =>
+        simp only [walkWith, h, List.cons_append]
+        split <;> simp [SnocSpec]
+      | dev =>
+        simp only [walkWith, h, List.cons_append]
+        split <;> simp [SnocSpec]
+
+theorem walk_snoc (m : Ents) (fl : Bool) :
+    ∀ (f : Nat) (cur : Loc) (init : List Name),
+      SnocSpec m fl (walk m true f cur init) (fun x => walk m fl f cur (init ++ [x]))
+  | 0, cur, init => by
+    simp only [walk]; exact walkWith_snoc m fl _ _ (by simp [SnocSpec]) init cur
+  | f + 1, cur, init => by
+    simp only [walk]
+    exact walkWith_snoc m fl _ _ (fun c cs => walk_snoc m fl f c cs) init cur
+
+/-- Chains of plain directories depend only on entries at most as long as the chain's end. -/
+theorem dirsFrom_of_agree_short {m m' : Ents} (ds : List Name) :
+    ∀ (S : Loc), (∀ l : Loc, l.length ≤ (S ++ ds).length → entryAt m' l = entryAt m l) →
+      dirsFrom m S ds → dirsFrom m' S ds := by
+  induction ds with
+  | nil => intro S _ _; trivial
+  | cons a ds ih =>
+    intro S h ⟨h1, h2⟩
+    refine ⟨by rw [h _ (by simp)]; exact h1, ih (S ++ [a]) (fun l hl => h l (by simpa using hl)) h2⟩
+
+/-- A chain of plain directories resolves to its end. -/
+theorem walk_dirs (m : Ents) (fl : Bool) (f : Nat) (S ds : List Name) (h : dirsFrom m S ds) :
+    walk m fl f S ds = .found (S ++ ds) .dir := by
+  have := walk_plain m fl f S ds [] h
+  simpa [walkWith] using this
 
 end Lace.PathFs
